@@ -75,10 +75,10 @@ class Object(metaclass=ObjectMeta):
         """
         if value is self:
             return
-        if isinstance(value, NotPassed) and not isinstance(
-            self.default, NotPassed
-        ):
-            value = self.default
+        # Read the class keyword: a property may be called "default" too.
+        default = type(self).default
+        if isinstance(value, NotPassed) and not isinstance(default, NotPassed):
+            value = default
         self._dict: Dict[str, Any] = {}
         for attr_name, attr_value in type(self).__properties__(value).items():
             if attr_name in type(self).properties:
